@@ -13,4 +13,26 @@ size_t g_exit; /* http_scan_line: value of the scan index at return (woven befor
 
 /* control bytes other than the two line-terminator bytes */
 #define SL_CTL(b) ((uint8_t) (b) < 0x20 && (uint8_t) (b) != '\r' && (uint8_t) (b) != '\n')
+
+/* ---- entry snapshot of http_scan_line for the native replay driver
+ * (modules/httpmsg/replay.c): n and the first 32 buffer bytes, as plain locals
+ * woven at function entry and read by vp/replay.py from counterexample traces.
+ * CBMC's per-dereference checks are switched off inside the snapshot so that it
+ * adds no proof obligations (every read is guarded by i < n). */
+#define VP_SNAP_BEGIN                                                              \
+	_Pragma("CPROVER check push") _Pragma("CPROVER check disable \"pointer\"")   \
+	_Pragma("CPROVER check disable \"bounds\"")                                  \
+	_Pragma("CPROVER check disable \"pointer-primitive\"")                       \
+	_Pragma("CPROVER check disable \"pointer-overflow\"")
+#define VP_SNAP_END _Pragma("CPROVER check pop")
+#define VP_SNAP_NB 32
+#define VP_SNAP_B(i) uint8_t vp_in_b##i = ((size_t) (i) < n) ? ((uint8_t *) vbuf)[i] : (uint8_t) 0
+#define VP_SNAP_SCAN()                                                             \
+	VP_SNAP_BEGIN                                                                  \
+	size_t vp_arg_n = n;                                                           \
+	VP_SNAP_B(0); VP_SNAP_B(1); VP_SNAP_B(2); VP_SNAP_B(3); VP_SNAP_B(4); VP_SNAP_B(5); VP_SNAP_B(6); VP_SNAP_B(7); \
+	VP_SNAP_B(8); VP_SNAP_B(9); VP_SNAP_B(10); VP_SNAP_B(11); VP_SNAP_B(12); VP_SNAP_B(13); VP_SNAP_B(14); VP_SNAP_B(15); \
+	VP_SNAP_B(16); VP_SNAP_B(17); VP_SNAP_B(18); VP_SNAP_B(19); VP_SNAP_B(20); VP_SNAP_B(21); VP_SNAP_B(22); VP_SNAP_B(23); \
+	VP_SNAP_B(24); VP_SNAP_B(25); VP_SNAP_B(26); VP_SNAP_B(27); VP_SNAP_B(28); VP_SNAP_B(29); VP_SNAP_B(30); VP_SNAP_B(31); \
+	VP_SNAP_END
 #endif
